@@ -8,6 +8,8 @@ package service
 // EndBlocker$3 = newRequestBatchHandler(requestContextID, requestContext): called for every entry of the new-batch queue at this height,
 // with the stored context (or the zero value if it is missing).
 //@ func EndBlocker$3
+//@ vars service.EndBlocker$3: requestContextID=github.com/tendermint/tendermint/libs/bytes.HexBytes#0 requestContext=github.com/irismod/service/types.RequestContext#0 providers=[]github.com/cosmos/cosmos-sdk/types.AccAddress#0 totalPrices=github.com/cosmos/cosmos-sdk/types.Coins#0 rawDenom=string#0 err=error#0 err=error#1 requestContext=github.com/irismod/service/types.RequestContext#1 batchState=github.com/irismod/service/types.BatchState#0 stateJSON=[]byte#0
+//@ vars service.EndBlocker: ctx=github.com/cosmos/cosmos-sdk/types.Context#0 k=github.com/irismod/service/keeper.Keeper#0 expiredRequestHandler=func#0 expiredRequestBatchHandler=func#1 providerRequests=map[string][]string#0 newRequestBatchHandler=func#2 provider=string#0 requests=[]string#0 requestsJSON=[]byte#0 str=[]string#1
 //@ props C06 C09 C01 C11 C10 C12 C20 C03
 //@ preserves [C10] never_more_batches_than_the_largest_total: cadInv(raw, ghostMaxTot)
 //@ preserves [C12,C16,C08] open_batches_count_their_pending_requests: cntInv(raw)
@@ -59,6 +61,8 @@ package service
 
 // EndBlocker$1 = expiredRequestHandler(requestID, request): called for every still-pending request of an expired batch.
 //@ func EndBlocker$1
+//@ vars service.EndBlocker$1: requestID=github.com/tendermint/tendermint/libs/bytes.HexBytes#0 request=github.com/irismod/service/types.Request#0
+//@ vars service.EndBlocker: ctx=github.com/cosmos/cosmos-sdk/types.Context#0 k=github.com/irismod/service/keeper.Keeper#0 expiredRequestHandler=func#0 expiredRequestBatchHandler=func#1 providerRequests=map[string][]string#0 newRequestBatchHandler=func#2 provider=string#0 requests=[]string#0 requestsJSON=[]byte#0 str=[]string#1
 //@ props C02 C04 C08 C16 C03 C20
 //@ preserves [C01,C02,C16] pending_requests_stay_well_formed: actInv(raw)
 //@ modifies raw, bal, supply
@@ -84,6 +88,9 @@ package service
 
 // EndBlocker$2 = expiredRequestBatchHandler(requestContextID, requestContext): called for every entry of the expiry queue at this height.
 //@ func EndBlocker$2
+//@ vars service.EndBlocker$2: requestContextID=github.com/tendermint/tendermint/libs/bytes.HexBytes#0 requestContext=github.com/irismod/service/types.RequestContext#0 resContext=github.com/irismod/service/types.RequestContext#1
+//@ vars (keeper.Keeper).IterateActiveRequests: k=github.com/irismod/service/keeper.Keeper#0 ctx=github.com/cosmos/cosmos-sdk/types.Context#0 requestContextID=github.com/tendermint/tendermint/libs/bytes.HexBytes#0 batchCounter=uint64#0 op=func#0 requestID=github.com/tendermint/tendermint/libs/bytes.HexBytes#1 request=github.com/irismod/service/types.Request#0 iterator=github.com/cosmos/cosmos-sdk/types.Iterator#0 requestID=github.com/gogo/protobuf/types.BytesValue#0 request=github.com/irismod/service/types.Request#1
+//@ vars service.EndBlocker: ctx=github.com/cosmos/cosmos-sdk/types.Context#0 k=github.com/irismod/service/keeper.Keeper#0 expiredRequestHandler=func#0 expiredRequestBatchHandler=func#1 providerRequests=map[string][]string#0 newRequestBatchHandler=func#2 provider=string#0 requests=[]string#0 requestsJSON=[]byte#0 str=[]string#1
 //@ props C16 C11 C10 C09 C12 C08 C02 C04 C20
 //@ preserves [C10] never_more_batches_than_the_largest_total: cadInv(raw, ghostMaxTot)
 //@ preserves [C12,C16,C08] open_batches_count_their_pending_requests: cntInv(raw)
@@ -128,6 +135,7 @@ package service
 
 // ---------------------------------------------------------------- message handlers (C05: authority; a message debits only its signer)
 //@ func handleMsgDefineService
+//@ vars service.handleMsgDefineService: ctx=github.com/cosmos/cosmos-sdk/types.Context#0 k=github.com/irismod/service/keeper.Keeper#0 msg=*github.com/irismod/service/types.MsgDefineService#0 err=error#0
 //@ props C05 C15 C20
 //@ preserves [C10] never_more_batches_than_the_largest_total: cadInv(raw, ghostMaxTot)
 //@ preserves [C11] no_event_in_the_past: futInv(raw, ctxHeight(ctx))
@@ -139,6 +147,7 @@ package service
 //@ ensures error_changes_nothing: err != NoErr ==> raw == old(raw)
 
 //@ func handleMsgBindService
+//@ vars service.handleMsgBindService: ctx=github.com/cosmos/cosmos-sdk/types.Context#0 k=github.com/irismod/service/keeper.Keeper#0 msg=*github.com/irismod/service/types.MsgBindService#0 found=bool#0 err=error#0
 //@ props C05 C03 C14 C15 C20
 //@ preserves [C10] never_more_batches_than_the_largest_total: cadInv(raw, ghostMaxTot)
 //@ preserves [C11] no_event_in_the_past: futInv(raw, ctxHeight(ctx))
@@ -156,6 +165,7 @@ package service
 //@ ensures error_changes_nothing: err != NoErr ==> raw == old(raw) && bal == old(bal)
 
 //@ func handleMsgUpdateServiceBinding
+//@ vars service.handleMsgUpdateServiceBinding: ctx=github.com/cosmos/cosmos-sdk/types.Context#0 k=github.com/irismod/service/keeper.Keeper#0 msg=*github.com/irismod/service/types.MsgUpdateServiceBinding#0 err=error#0
 //@ props C05 C03 C14 C20
 //@ preserves [C10] never_more_batches_than_the_largest_total: cadInv(raw, ghostMaxTot)
 //@ preserves [C11] no_event_in_the_past: futInv(raw, ctxHeight(ctx))
@@ -171,6 +181,7 @@ package service
 //@ ensures [C05] only_the_signer_is_debited: forall a Bytes, d Str :: {bal[a][d]} a != msg.Owner ==> bal[a][d] >= old(bal)[a][d]
 
 //@ func handleMsgSetWithdrawAddress
+//@ vars service.handleMsgSetWithdrawAddress: ctx=github.com/cosmos/cosmos-sdk/types.Context#0 k=github.com/irismod/service/keeper.Keeper#0 msg=*github.com/irismod/service/types.MsgSetWithdrawAddress#0
 //@ props C05 C13 C20
 //@ preserves [C10] never_more_batches_than_the_largest_total: cadInv(raw, ghostMaxTot)
 //@ preserves [C11] no_event_in_the_past: futInv(raw, ctxHeight(ctx))
@@ -182,6 +193,7 @@ package service
 //@ requires a2_validated: len(msg.WithdrawAddress) > 0
 
 //@ func handleMsgDisableServiceBinding
+//@ vars service.handleMsgDisableServiceBinding: ctx=github.com/cosmos/cosmos-sdk/types.Context#0 k=github.com/irismod/service/keeper.Keeper#0 msg=*github.com/irismod/service/types.MsgDisableServiceBinding#0 err=error#0
 //@ props C05 C03 C20
 //@ preserves [C10] never_more_batches_than_the_largest_total: cadInv(raw, ghostMaxTot)
 //@ preserves [C11] no_event_in_the_past: futInv(raw, ctxHeight(ctx))
@@ -195,6 +207,7 @@ package service
 //@ ensures error_changes_nothing: err != NoErr ==> raw == old(raw)
 
 //@ func handleMsgEnableServiceBinding
+//@ vars service.handleMsgEnableServiceBinding: ctx=github.com/cosmos/cosmos-sdk/types.Context#0 k=github.com/irismod/service/keeper.Keeper#0 msg=*github.com/irismod/service/types.MsgEnableServiceBinding#0 err=error#0
 //@ props C05 C03 C14 C20
 //@ preserves [C10] never_more_batches_than_the_largest_total: cadInv(raw, ghostMaxTot)
 //@ preserves [C11] no_event_in_the_past: futInv(raw, ctxHeight(ctx))
@@ -211,6 +224,7 @@ package service
 //@ ensures error_changes_nothing: err != NoErr ==> raw == old(raw) && bal == old(bal)
 
 //@ func handleMsgRefundServiceDeposit
+//@ vars service.handleMsgRefundServiceDeposit: ctx=github.com/cosmos/cosmos-sdk/types.Context#0 k=github.com/irismod/service/keeper.Keeper#0 msg=*github.com/irismod/service/types.MsgRefundServiceDeposit#0 err=error#0
 //@ props C05 C03 C20
 //@ preserves [C10] never_more_batches_than_the_largest_total: cadInv(raw, ghostMaxTot)
 //@ preserves [C11] no_event_in_the_past: futInv(raw, ctxHeight(ctx))
@@ -225,6 +239,7 @@ package service
 //@ ensures error_changes_nothing: err != NoErr ==> raw == old(raw) && bal == old(bal)
 
 //@ func handleMsgPauseRequestContext
+//@ vars service.handleMsgPauseRequestContext: ctx=github.com/cosmos/cosmos-sdk/types.Context#0 k=github.com/irismod/service/keeper.Keeper#0 msg=*github.com/irismod/service/types.MsgPauseRequestContext#0 err=error#0 err=error#1
 //@ preserves [C01,C02,C16,C11] pending_requests_stay_well_formed: actInv(raw)
 //@ props C05 C09 C20
 //@ preserves [C10] never_more_batches_than_the_largest_total: cadInv(raw, ghostMaxTot)
@@ -239,6 +254,7 @@ package service
 //@ ensures error_changes_nothing: err != NoErr ==> raw == old(raw)
 
 //@ func handleMsgStartRequestContext
+//@ vars service.handleMsgStartRequestContext: ctx=github.com/cosmos/cosmos-sdk/types.Context#0 k=github.com/irismod/service/keeper.Keeper#0 msg=*github.com/irismod/service/types.MsgStartRequestContext#0 err=error#0 err=error#1
 //@ preserves [C01,C02,C16,C11] pending_requests_stay_well_formed: actInv(raw)
 //@ props C05 C09 C20
 //@ preserves [C10] never_more_batches_than_the_largest_total: cadInv(raw, ghostMaxTot)
@@ -252,6 +268,7 @@ package service
 //@ ensures error_changes_nothing: err != NoErr ==> raw == old(raw)
 
 //@ func handleMsgKillRequestContext
+//@ vars service.handleMsgKillRequestContext: ctx=github.com/cosmos/cosmos-sdk/types.Context#0 k=github.com/irismod/service/keeper.Keeper#0 msg=*github.com/irismod/service/types.MsgKillRequestContext#0 err=error#0 err=error#1
 //@ preserves [C01,C02,C16,C11] pending_requests_stay_well_formed: actInv(raw)
 //@ props C05 C09 C20
 //@ preserves [C10] never_more_batches_than_the_largest_total: cadInv(raw, ghostMaxTot)
@@ -266,6 +283,7 @@ package service
 //@ ensures error_changes_nothing: err != NoErr ==> raw == old(raw)
 
 //@ func handleMsgUpdateRequestContext
+//@ vars service.handleMsgUpdateRequestContext: ctx=github.com/cosmos/cosmos-sdk/types.Context#0 k=github.com/irismod/service/keeper.Keeper#0 msg=*github.com/irismod/service/types.MsgUpdateRequestContext#0 err=error#0 err=error#1
 //@ preserves [C01,C02,C16,C11] pending_requests_stay_well_formed: actInv(raw)
 //@ props C05 C09 C10 C20
 //@ requires [C10] never_more_batches_than_the_largest_total: cadInv(raw, ghostMaxTot)
@@ -284,6 +302,7 @@ package service
 //@ ensures error_changes_nothing: err != NoErr ==> raw == old(raw)
 
 //@ func handleMsgCallService
+//@ vars service.handleMsgCallService: ctx=github.com/cosmos/cosmos-sdk/types.Context#0 k=github.com/irismod/service/keeper.Keeper#0 msg=*github.com/irismod/service/types.MsgCallService#0 reqContextID=github.com/tendermint/tendermint/libs/bytes.HexBytes#0 err=error#0 moduleService=*github.com/irismod/service/types.ModuleService#0 found=bool#0 err=error#1
 //@ props C05 C10 C11 C09 C20 C16 C12
 //@ modifies raw, bal, supply, cblog
 //@ preserves wf: WF(raw)
@@ -303,6 +322,7 @@ package service
 //@ ensures error_changes_no_record: err != NoErr && !moduleSvcFound(msg.ServiceName) ==> raw == old(raw) && bal == old(bal)
 
 //@ func handleMsgRespondService
+//@ vars service.handleMsgRespondService: ctx=github.com/cosmos/cosmos-sdk/types.Context#0 k=github.com/irismod/service/keeper.Keeper#0 msg=*github.com/irismod/service/types.MsgRespondService#0 request=github.com/irismod/service/types.Request#0 err=error#0
 //@ props C05 C08 C02 C20
 //@ preserves [C10] never_more_batches_than_the_largest_total: cadInv(raw, ghostMaxTot)
 //@ preserves [C11] no_event_in_the_past: futInv(raw, ctxHeight(ctx))
@@ -323,6 +343,7 @@ package service
 //@      ==> err != NoErr && raw == old(raw) && bal == old(bal) && supply == old(supply)
 
 //@ func handleMsgWithdrawEarnedFees
+//@ vars service.handleMsgWithdrawEarnedFees: ctx=github.com/cosmos/cosmos-sdk/types.Context#0 k=github.com/irismod/service/keeper.Keeper#0 msg=*github.com/irismod/service/types.MsgWithdrawEarnedFees#0 err=error#0
 //@ props C05 C13 C20
 //@ preserves [C10] never_more_batches_than_the_largest_total: cadInv(raw, ghostMaxTot)
 //@ preserves [C11] no_event_in_the_past: futInv(raw, ctxHeight(ctx))
@@ -338,6 +359,7 @@ package service
 
 // ---------------------------------------------------------------- zero-height export preparation (C19)
 //@ func PrepForZeroHeightGenesis
+//@ vars service.PrepForZeroHeightGenesis: ctx=github.com/cosmos/cosmos-sdk/types.Context#0 k=github.com/irismod/service/keeper.Keeper#0 err=error#0 err=error#1 err=error#2
 //@ props C19
 //@ modifies raw, bal
 //@ maypanic
@@ -348,6 +370,9 @@ package service
 
 // ---------------------------------------------------------------- EndBlocker: the two queue scans of one block
 //@ func EndBlocker
+//@ vars service.EndBlocker: ctx=github.com/cosmos/cosmos-sdk/types.Context#0 k=github.com/irismod/service/keeper.Keeper#0 expiredRequestHandler=func#0 expiredRequestBatchHandler=func#1 providerRequests=map[string][]string#0 newRequestBatchHandler=func#2 provider=string#0 requests=[]string#0 requestsJSON=[]byte#0 str=[]string#1
+//@ vars (keeper.Keeper).IterateExpiredRequestBatch: k=github.com/irismod/service/keeper.Keeper#0 ctx=github.com/cosmos/cosmos-sdk/types.Context#0 expirationHeight=int64#0 op=func#0 requestContextID=github.com/tendermint/tendermint/libs/bytes.HexBytes#0 requestContext=github.com/irismod/service/types.RequestContext#0 store=github.com/cosmos/cosmos-sdk/types.KVStore#0 iterator=github.com/cosmos/cosmos-sdk/types.Iterator#0 requestContextID=github.com/gogo/protobuf/types.BytesValue#0 requestContext=github.com/irismod/service/types.RequestContext#1
+//@ vars (keeper.Keeper).IterateNewRequestBatch: k=github.com/irismod/service/keeper.Keeper#0 ctx=github.com/cosmos/cosmos-sdk/types.Context#0 requestBatchHeight=int64#0 op=func#0 requestContextID=github.com/tendermint/tendermint/libs/bytes.HexBytes#0 requestContext=github.com/irismod/service/types.RequestContext#0 store=github.com/cosmos/cosmos-sdk/types.KVStore#0 iterator=github.com/cosmos/cosmos-sdk/types.Iterator#0 requestContextID=github.com/gogo/protobuf/types.BytesValue#0 requestContext=github.com/irismod/service/types.RequestContext#1
 //@ props C11 C03 C16 C20 C10
 //@ preserves [C10] never_more_batches_than_the_largest_total: cadInv(raw, ghostMaxTot)
 //@ preserves [C12,C16,C08] open_batches_count_their_pending_requests: cntInv(raw)
@@ -391,6 +416,11 @@ package service
 
 // ---------------------------------------------------------------- genesis export / import (C19, second half)
 //@ func ExportGenesis
+//@ vars service.ExportGenesis: ctx=github.com/cosmos/cosmos-sdk/types.Context#0 k=github.com/irismod/service/keeper.Keeper#0 definitions=[]github.com/irismod/service/types.ServiceDefinition#0 bindings=[]github.com/irismod/service/types.ServiceBinding#0 withdrawAddresses=map[string][]byte#0 requestContexts=map[string]*github.com/irismod/service/types.RequestContext#0
+//@ vars (keeper.Keeper).IterateRequestContexts: k=github.com/irismod/service/keeper.Keeper#0 ctx=github.com/cosmos/cosmos-sdk/types.Context#0 op=func#0 requestContextID=github.com/tendermint/tendermint/libs/bytes.HexBytes#0 requestContext=github.com/irismod/service/types.RequestContext#0 stop=bool#0 store=github.com/cosmos/cosmos-sdk/types.KVStore#0 iterator=github.com/cosmos/cosmos-sdk/types.Iterator#0 requestContextID=[]byte#0 requestContext=github.com/irismod/service/types.RequestContext#1 stop=bool#1
+//@ vars (keeper.Keeper).IterateServiceBindings: k=github.com/irismod/service/keeper.Keeper#0 ctx=github.com/cosmos/cosmos-sdk/types.Context#0 op=func#0 binding=github.com/irismod/service/types.ServiceBinding#0 stop=bool#0 store=github.com/cosmos/cosmos-sdk/types.KVStore#0 iterator=github.com/cosmos/cosmos-sdk/types.Iterator#0 binding=github.com/irismod/service/types.ServiceBinding#1 stop=bool#1
+//@ vars (keeper.Keeper).IterateServiceDefinitions: k=github.com/irismod/service/keeper.Keeper#0 ctx=github.com/cosmos/cosmos-sdk/types.Context#0 op=func#0 definition=github.com/irismod/service/types.ServiceDefinition#0 stop=bool#0 store=github.com/cosmos/cosmos-sdk/types.KVStore#0 iterator=github.com/cosmos/cosmos-sdk/types.Iterator#0 definition=github.com/irismod/service/types.ServiceDefinition#1 stop=bool#1
+//@ vars (keeper.Keeper).IterateWithdrawAddresses: k=github.com/irismod/service/keeper.Keeper#0 ctx=github.com/cosmos/cosmos-sdk/types.Context#0 op=func#0 owner=github.com/cosmos/cosmos-sdk/types.AccAddress#0 withdrawAddress=github.com/cosmos/cosmos-sdk/types.AccAddress#1 stop=bool#0 store=github.com/cosmos/cosmos-sdk/types.KVStore#0 iterator=github.com/cosmos/cosmos-sdk/types.Iterator#0 ownerAddress=github.com/cosmos/cosmos-sdk/types.AccAddress#2 withdrawAddress=github.com/cosmos/cosmos-sdk/types.AccAddress#3 stop=bool#1
 //@ props C19
 //@ loop IterateServiceDefinitions.0 invariant pos_in_range: 0 <= iterator_pos && iterator_pos <= itCount(iterator_snap, iterator_pfx)
 //@ loop IterateServiceDefinitions.0 invariant snapshot: iterator_snap == raw && iterator_pfx == PAllDef
@@ -419,6 +449,7 @@ package service
 //@      mapHas_Map_Str_RequestContext(result.RequestContexts, hexstr(id)) && mapGet_Map_Str_RequestContext(result.RequestContexts, hexstr(id)) == ctxOf(raw, id)
 
 //@ func InitGenesis
+//@ vars service.InitGenesis: ctx=github.com/cosmos/cosmos-sdk/types.Context#0 k=github.com/irismod/service/keeper.Keeper#0 data=github.com/irismod/service/types.GenesisState#0 err=error#0 definition=github.com/irismod/service/types.ServiceDefinition#0 binding=github.com/irismod/service/types.ServiceBinding#0 err=error#1 ownerAddressStr=string#0 withdrawAddress=[]byte#0 ownerAddress=github.com/cosmos/cosmos-sdk/types.AccAddress#0 reqContextIDStr=string#1 requestContext=*github.com/irismod/service/types.RequestContext#0 requestContextID=[]byte#1
 //@ props C19
 //@ modifies raw
 //@ maypanic
